@@ -272,9 +272,19 @@ func (f *Frame) assumeTypeInvariants() {
 		}
 		ctx := &EvalCtx{f: f, env: map[string]Val{}, heap: s.plainView(s.entry), old: s.plainView(s.entry), bound: map[string]Val{}, pkg: tc.Pkg, where: "type invariant " + k}
 		f.hypMode = true
-		inv := ctx.typeInv(S{"r", pt})
-		f.hypMode = false
-		var vs []string
+		var clauses []string
+		for _, cl := range tc.Invariant {
+			n, err := parseXExpr(cl.Text)
+			if err != nil {
+				panic(evalErr{fmt.Sprintf("%s:%d: %v", cl.File, cl.Line, err)})
+			}
+			sub := &EvalCtx{f: f, env: map[string]Val{"self": S{"r", pt}}, heap: ctx.heap, old: ctx.old, bound: map[string]Val{}, pkg: tc.Pkg,
+				where: fmt.Sprintf("%s:%d: %s", cl.File, cl.Line, cl.Text)}
+			clauses = append(clauses, sub.evalBool(n))
+		}
+		if len(tc.Views) > 0 {
+			s.assume("view axioms of " + k + " define the ghost observers on this representation (definitional, unchecked)")
+		}
 		for _, cl := range tc.Views {
 			n, err := parseXExpr(cl.Text)
 			if err != nil {
@@ -282,12 +292,13 @@ func (f *Frame) assumeTypeInvariants() {
 			}
 			sub := &EvalCtx{f: f, env: map[string]Val{"self": S{"r", pt}}, heap: ctx.heap, old: ctx.old, bound: map[string]Val{}, pkg: tc.Pkg,
 				where: fmt.Sprintf("%s:%d: %s", cl.File, cl.Line, cl.Text)}
-			vs = append(vs, sub.evalBool(n))
+			clauses = append(clauses, sub.evalBool(n))
 		}
-		if len(vs) > 0 {
-			s.assume("view axioms of " + k + " define the ghost observers on this representation (definitional, unchecked)")
+		f.hypMode = false
+		// one quantified fact per clause keeps the solver's trigger selection local to the clause
+		for _, c := range clauses {
+			s.fact(fmt.Sprintf("(forall ((r Int)) (=> (and (< 0 r) (< r %s)) %s))", s.alloc0, c))
 		}
-		s.fact(fmt.Sprintf("(forall ((r Int)) (=> (and (< 0 r) (< r %s)) %s))", s.alloc0, and(inv, and(vs...))))
 	}
 }
 
